@@ -449,6 +449,8 @@ func canonicalResponse(proto, kind string, status int, header, trailer http.Head
 		}
 		if w, ok := parseJSONError(body); ok {
 			r.body = []bodyItem{{kind: "ej", err: w}}
+		} else if len(body) == 0 {
+			note = "empty-error-body"
 		} else {
 			r.body = []bodyItem{{kind: "raw", data: body}}
 			note = "unparsable-error-body"
